@@ -149,7 +149,7 @@ class Focused(Part):
         out0, ex = run_case(case, count_lines=True, sparse=dict(pre=[], blk=[]), focus=FOCUS)
         judge(case, out0, ex)
         n = out0.lines
-        stride = 1 if (ctx.tier == "thorough" or n <= 1500) else max(1, n // 1500)
+        stride = explore.plan_stride(n, ctx.tier)
 
         def one(line, alt):
             out, ex = run_case(case, preempt_at=(line,), sparse=explore.line_sparse(alt), focus=FOCUS)
@@ -160,7 +160,7 @@ class Focused(Part):
                 raise
             return out.sched
 
-        runs, found, inc = explore.single_preemptions(one, n, stride, ctx.seed)
+        runs, found, inc = explore.single_preemptions(one, n, stride, ctx.seed, max_runs=None if ctx.tier == "thorough" else 900)
         viol = [(v, dict(case, single=list(la))) for v, la in found]
         if inc:
             ctx.count("inconclusive_runs", inc)
